@@ -191,13 +191,31 @@ def check(ctx):
         av = exps[0].data["args"][0]
         axis_idx = None
         angle = None
+
+        def unit(a: T):
+            return a.args[1].args[1] if (
+                a.op == "upd" and is_call_to(a.args[0], "numpy.zeros") and
+                tm.is_const(a.args[1]) and tm.is_const(a.args[2], 1)) \
+                else None
         if av.op == "binop" and av.args[0] == "Mult":
             for a, b in ((av.args[1], av.args[2]), (av.args[2], av.args[1])):
-                if a.op == "upd" and is_call_to(a.args[0], "numpy.zeros") \
-                        and tm.is_const(a.args[1]) and \
-                        tm.is_const(a.args[2], 1):
-                    axis_idx = a.args[1].args[1]
+                if unit(a) is not None:
+                    axis_idx = unit(a)
                     angle = b
+        elif unit(av) is not None:
+            # so3_exp(axis, angle): axis and angle passed separately (the
+            # callee scales the normalised axis by the angle)
+            b_ = exps[0].data.get("bound") or {}
+            extra = [v for k, v in b_.items() if v is not av and
+                     k not in ("degrees",)]
+            deg = b_.get("degrees")
+            if len(exps[0].data["args"]) + len(exps[0].data["kwargs"]) >= 2 \
+                    and len(extra) >= 1 and (deg is None or
+                                             tm.is_const(deg, False)):
+                axis_idx = unit(av)
+                angle = exps[0].data["args"][1] if len(
+                    exps[0].data["args"]) > 1 else dict(
+                    exps[0].data["kwargs"]).get("angle")
         ok = axis_idx == normal
         ctx.ob("C14.1", f, ok,
                f"Plane.{member}: rotation is rebuilt about the plane normal "
